@@ -82,7 +82,7 @@ def run_tlc(ctx, module_path, cfg_text=None, cfg_path=None, env=None, workers=No
         m = re.search(r"The number of states generated: (\d[\d,]*)", out)
         if m:
             res["states"] = res["distinct"] = int(m.group(1).replace(",", ""))
-    m = re.search(r"Error: (Invariant (\S+) is violated|Action property (\S+) is violated|Temporal properties were violated|Deadlock reached|The first argument of Assert evaluated to FALSE[^\n]*|Assertion failed[^\n]*)", out)
+    m = re.search(r"Error: (The invariant of \S+ is equal to FALSE|Assumption [^\n]* is false|Invariant (\S+) is violated|Action property (\S+) is violated|Temporal properties were violated|Deadlock reached|The first argument of Assert evaluated to FALSE[^\n]*|Assertion failed[^\n]*)", out)
     if m:
         res["violation"] = m.group(1)
     elif r.returncode == 124:
@@ -116,6 +116,12 @@ def model_check(ctx, module_rel, cfg_rel=None, cfg_text=None, expect_violation=N
     log("  model %-40s %-28s %9d distinct %6.1fs %s" % (module_rel, os.path.basename(cfg_rel or "gen"), r["distinct"], r["wall_s"], ("violation: " + r["violation"]) if r["violation"] else "ok"))
     r["rec"] = rec
     return r
+
+
+def model_check_many(ctx, specs, par=4):
+    """run several model checks concurrently; specs = list of dicts of model_check keyword arguments"""
+    with concurrent.futures.ThreadPoolExecutor(max_workers=par) as ex:
+        return list(ex.map(lambda kw: model_check(ctx, **kw), specs))
 
 
 # ---------------------------------------------------------------------------------------------------------------------
@@ -371,6 +377,82 @@ def report_direct(ctx, prop, component, variant, kind, detail, replay_doc):
     log("VIOLATION property=%s replay=%s" % (prop, path))
     log("  (%s %s: %s)" % (component, variant, detail))
     return True
+
+
+def run_recorder(ctx, args, out_name, timeout=1200):
+    """run the standalone recorder drivers/pure.cpp <mode> <seed> <n> <out> [extra]; returns the path of the ndjson file"""
+    exe = build.ensure_driver("pure")
+    out = os.path.join(ctx.dir, out_name)
+    a = list(args)
+    cmd = [exe, a[0], str(a[1]), str(a[2]), out] + [str(x) for x in a[3:]]
+    r = subprocess.run(cmd, stdout=subprocess.PIPE, stderr=subprocess.STDOUT, text=True, timeout=timeout)
+    if r.returncode != 0:
+        ctx.machinery_errors.append("recorder %s failed rc=%d: %s" % (" ".join(map(str, args)), r.returncode, r.stdout[-400:]))
+    return out
+
+
+def validate_records(ctx, files, module_rel, cfg_consts, prop, component, name=None, shards=None, classify_rec=None):
+    """Tier-P verdict: every recorded case is validated by TLC (PureCore) against the reference spec.
+    Stateless record sets are sharded over parallel TLC processes (stateful=False) ; returns list of rejected records."""
+    lines = []
+    for f in files:
+        try:
+            lines += [l for l in open(f).read().splitlines() if l.strip()]
+        except OSError:
+            ctx.machinery_errors.append("missing record file " + f)
+    if not lines:
+        return []
+    ctx.executions += len(lines)
+    ctx.distinct += len(set(lines))
+    mp = os.path.join(SPEC, module_rel)
+    nm = name or os.path.basename(module_rel).replace(".tla", "")
+    cfg = "SPECIFICATION Spec\nCONSTANTS\n" + "".join("  %s\n" % c for c in cfg_consts) + "CHECK_DEADLOCK FALSE\n"
+    nsh = shards if shards is not None else max(1, min(NCPU, len(lines) // 3000))
+    # stateful traces are split only at {"f":"reset"} boundaries
+    if shards == "reset":
+        chunks = [[]]
+        for l in lines:
+            if '"f":"reset"' in l and len(chunks[-1]) > max(2000, len(lines) // NCPU):
+                chunks.append([])
+            chunks[-1].append(l)
+    else:
+        per = (len(lines) + nsh - 1) // nsh
+        chunks = [lines[i:i + per] for i in range(0, len(lines), per)]
+    t0 = time.time()
+
+    def one(args):
+        si, part = args
+        tf = os.path.join(ctx.dir, "rec_%s_%d.ndjson" % (nm, si))
+        with open(tf, "w") as f:
+            f.write("\n".join(part) + "\n")
+        return run_tlc(ctx, mp, cfg_text=cfg, env={"TRACE": tf}, name="rec_%s_%d" % (nm, si), timeout=1500, workers=1, heap="3g")
+
+    with concurrent.futures.ThreadPoolExecutor(max_workers=NCPU) as ex:
+        results = list(ex.map(one, list(enumerate(chunks))))
+    rejected = []
+    design = []
+    for part, r in zip(chunks, results):
+        if r["error"] or r["violation"]:
+            ctx.machinery_errors.append("record validation %s failed: %s" % (nm, r["error"] or r["violation"]))
+            log(r["out"][-2000:])
+            continue
+        ctx.validated += len(part)
+        for x in re.findall(r'<<"REJ", (\d+)>>', r["out"]):
+            rejected.append(part[int(x) - 1])
+        for x in re.findall(r'<<"LITERAL", (\d+)>>', r["out"]):
+            design.append(int(x))
+    log("  validated %d recorded cases against %s: %d rejected; %d TLC shards, %.1fs" % (len(lines), module_rel, len(rejected), len(chunks), time.time() - t0))
+    if len(ctx.samples) < 4:
+        ctx.samples.append({"kind": "recorded case accepted by " + module_rel, "case": json.loads(lines[len(lines) // 2])})
+    # group rejections by a signature so that each distinct failure is reported once
+    groups = {}
+    for l in rejected:
+        d = json.loads(l)
+        sig = classify_rec(d) if classify_rec else "%s/%s" % (d.get("f"), d.get("impl", d.get("kind", "")))
+        groups.setdefault(sig, []).append(d)
+    for sig, ds in sorted(groups.items()):
+        report_direct(ctx, prop, component, sig, "reject", sig, {"property": prop, "component": component, "signature": sig, "oracle": module_rel, "count": len(ds), "cases": ds[:10]})
+    return rejected, design
 
 
 # ---------------------------------------------------------------------------------------------------------------------
